@@ -1,4 +1,5 @@
 """Code-mode (forking) expression evaluation.  Mixed into Executor."""
+import os
 import ast
 import z3
 from .types import *  # noqa
@@ -282,6 +283,36 @@ class ExprMixin:
         if len(node.generators) != 1:
             raise OutOfSubset('nested comprehension', node)
         gen = node.generators[0]
+        it = gen.iter
+        if isinstance(it, ast.Call) and isinstance(it.func, ast.Name) and it.func.id == 'enumerate' \
+                and 'enumerate' not in st.env and 1 <= len(it.args) <= 2:
+            # enumerate(xs, start=k): the list of pairs (k + i, xs[i])
+            start_node = it.args[1] if len(it.args) == 2 else None
+            for kw in it.keywords:
+                if kw.arg == 'start':
+                    start_node = kw.value
+                else:
+                    raise OutOfSubset('enumerate keyword %s' % kw.arg, node)
+            for s1, xs in self.ev(it.args[0], st):
+                if isinstance(xs, Exc):
+                    yield s1, xs
+                    continue
+                if isinstance(xs.t, TOpt):
+                    self.prove(s1, z3.Not(opt_is_none(xs)), 'noraise', node.lineno, 'None-iteration')
+                    xs = opt_val(xs)
+                if not isinstance(xs.t, TList):
+                    raise OutOfSubset('enumerate over %s' % xs.t, node)
+                starts = [(s1, mk_int(0))] if start_node is None else list(self.ev(start_node, s1))
+                for s2, k0 in starts:
+                    if isinstance(k0, Exc):
+                        yield s2, k0
+                        continue
+                    j = z3.Int(fresh_name('en'))
+                    pt = TTuple([INT, xs.t.elem])
+                    pair = mk_tuple([mk_int(k0.e + j), Val(xs.t.elem, z3.Select(list_arr(xs), j))])
+                    pairs = mk_list(TList(pt), list_len(xs), z3.Lambda([j], pair.e))
+                    yield from self.listcomp_over(node, gen, pairs, s2)
+            return
         for s1, src in self.ev(gen.iter, st):
             if isinstance(src, Exc):
                 yield s1, src
@@ -314,6 +345,9 @@ class ExprMixin:
                     nxt.append(s2)
             states = nxt
         results = []
+        if not gen.ifs and len(states) == 1 and self.is_ctor_call(node.elt, probe):
+            yield from self.listcomp_ctor(node, gen, src, st, probe, i, n)
+            return
         for s in states:
             for s2, v in self.ev(node.elt, s):
                 if isinstance(v, Exc):
@@ -350,6 +384,87 @@ class ExprMixin:
         else:
             st.assume(list_len(r) == n)
         yield st, r
+
+    def is_ctor_call(self, elt, st):
+        if not isinstance(elt, ast.Call) or not isinstance(elt.func, ast.Name) or elt.func.id in st.env:
+            return False
+        v = self.lookup_name(st, elt.func.id)
+        return v is not None and isinstance(v.t, TObj) and v.t.kind == 'class' \
+            and self.class_method_key(v.py, '__init__') is not None
+
+    def listcomp_ctor(self, node, gen, src, st, probe, i, n):
+        """[Cls(args(x)) for x in xs]: n objects are allocated at consecutive references a0 .. a0+n-1.
+        The constructor contract is applied once at a symbolic index i (its precondition is proved
+        there, for every 0 <= i < n); what it guarantees about object a0+i is then assumed for all i,
+        with every value the probe invented re-expressed as a function of i (Skolem functions) and
+        the written fields read from fresh per-field arrays over the new region.  Objects that existed
+        before keep all their fields."""
+        line = node.lineno
+        a0 = st.alloc
+        mark = fresh_name('mark')
+        mark_n = int(mark.split('!')[1])
+        probe.alloc = a0 + i
+        pc0 = len(probe.pc)
+        heap0 = dict(probe.heap)
+        glob0 = dict(probe.glob)
+        outs = list(self.ev(node.elt, probe))
+        if len(outs) != 1 or isinstance(outs[0][1], Exc) or outs[0][0] is not probe:
+            raise OutOfSubset('constructor element forks or may raise', node)
+        ref = outs[0][1]
+        if not isinstance(ref.t, TRef):
+            raise OutOfSubset('constructor element is not an object', node)
+        if not z3.simplify(probe.alloc - (a0 + i + 1)).eq(z3.IntVal(0)):
+            raise OutOfSubset('constructor in a comprehension allocates further objects', node)
+        if any(probe.glob.get(k) is not glob0.get(k) for k in set(glob0) | set(probe.glob)):
+            raise OutOfSubset('constructor in a comprehension writes global state', node)
+        facts = probe.pc[pc0:]
+        changed = [k for k in probe.heap if k not in heap0 or not probe.heap[k].eq(heap0[k])]
+        subst = []
+        regions = []
+        r = z3.Int(fresh_name('r'))
+        for k in changed:
+            base = heap0.get(k)
+            if base is None:
+                base = self.heap_arr(st, k[0], k[1])[1]
+            region = z3.Const(fresh_name('HC_%s_%s' % k), probe.heap[k].sort())
+            regions.append(region)
+            stored = z3.simplify(z3.Select(probe.heap[k], a0 + i))
+            facts = facts + [z3.Select(region, a0 + i) == stored]
+            st.heap[k] = z3.Lambda([r], z3.If(z3.And(a0 <= r, r < a0 + n), z3.Select(region, r), z3.Select(base, r)))
+        # every constant invented during the probe becomes a function of i
+        stored_ids = regions
+        seen = {}
+        def consts(e):
+            todo = [e]
+            while todo:
+                x = todo.pop()
+                if z3.is_const(x) and x.decl().kind() == z3.Z3_OP_UNINTERPRETED:
+                    nm = x.decl().name()
+                    if '!' in nm:
+                        try:
+                            idx = int(nm.rsplit('!', 1)[1])
+                        except ValueError:
+                            idx = -1
+                        if idx > mark_n and not x.eq(i) and not any(x.eq(a) for a in stored_ids):
+                            seen[nm] = x
+                elif z3.is_quantifier(x):
+                    todo.append(x.body())
+                else:
+                    todo.extend(x.children())
+        for f in facts:
+            consts(f)
+        for nm, x in seen.items():
+            fn = z3.Function(fresh_name('sk_' + nm.split('!')[0]), z3.IntSort(), x.sort())
+            subst.append((x, fn(i)))
+        body = z3.And(*facts) if facts else z3.BoolVal(True)
+        if subst:
+            body = z3.substitute(body, *subst)
+        if os.environ.get('PYVC_TRACE'):
+            print('TRACE listcomp_ctor changed=%s body=%s' % (changed, str(body).replace('\n', ' ')[:1500]), flush=True)
+        st.assume(z3.ForAll([i], z3.Implies(z3.And(0 <= i, i < n), body)))
+        st.alloc = a0 + n
+        rt = TList(ref.t)
+        yield st, mk_list(rt, n, z3.Lambda([i], a0 + i))
 
     def bind_comp_target(self, target, v, st, line):
         if isinstance(target, ast.Name):
